@@ -122,9 +122,21 @@ def provenance(rng):
 
 def gen_random(rng):
     sps = type_variants(rng) if rng.random() < 0.25 else [rand_sp(rng) for _ in range(rng.randint(1, 3))]
+    tuples = rng.random() < 0.2
+    wipe = rng.random() < 0.12
+    if tuples:
+        # sequences (handed over as TUPLES) that hold lists / mappings
+        k1, k2 = rng.sample(KEYS, 2)
+        sps = sps[:2] + [{k1: [[rng.choice(ATOMS), 2], {"p": rng.choice(ATOMS)}], k2: rng.choice(ATOMS)},
+                         {k1: {"m": [[1], rng.choice(ATOMS)]}}]
+    if wipe:      # the workspace vanishes before anything is initialised: no pattern that initialises jobs first
+        return {"kind": "random", "sps": [typed(s) for s in sps], "pseed": rng.randint(0, 10 ** 9),
+                "len": rng.randint(4, 12), "plant": rng.random() < 0.6, "damage": False, "prov": provenance(rng),
+                "stray": rng.random() < 0.4, "live": False, "relcwd": False, "tuples": tuples, "wipe": True}
     return {"kind": "random", "sps": [typed(s) for s in sps], "pseed": rng.randint(0, 10 ** 9),
             "len": rng.randint(4, 12), "plant": rng.random() < 0.6, "damage": rng.random() < 0.25, "prov": provenance(rng),
-            "stray": rng.random() < 0.4, "live": rng.random() < 0.2, "relcwd": rng.random() < 0.15}
+            "stray": rng.random() < 0.4, "live": rng.random() < 0.2, "relcwd": rng.random() < 0.15,
+            "tuples": tuples}
 
 
 def gen_sweep(rng):
@@ -297,12 +309,37 @@ def build_ops(desc, W, real_id):
         yield ["Sp", hc]
     if desc.get("stray"):
         yield from plant_strays(rng, [real_id(s) for s in sps] + planted)
+    if desc.get("wipe"):
+        # the workspace directory disappears (data space wiped, scratch purged) while the Project object lives on; jobs
+        # are then opened and initialised through that SAME object.  Nothing has been initialised in the project yet (C02's
+        # histories have no removal of jobs: an id the in-memory cache still knows is C08's subject); lazily opened handles
+        # and planted directories may exist
+        if rng.random() < 0.6:
+            yield ["OpenSp", rng.randrange(nsess), rng.choice(sps)]
+        yield ["Wipe", ["A", "workspace"]]
+        yield rng.choice([["Ids", rng.randrange(nsess)], ["Len", rng.randrange(nsess)], ["OpenId", 0, real_id(sps[0])[:rng.choice([4, 32])]]])
+        for sp in rng.sample(sps, rng.randint(1, len(sps))):
+            if rng.random() < 0.5 or not W.args:
+                yield ["OpenSp", rng.randrange(nsess), sp]
+                h = len(W.handles) - 1
+            else:
+                h = rng.choice(sorted(W.args))
+            if rng.random() < 0.3:
+                yield ["ChDir", rng.randrange(8)]
+            wsops.settle()
+            yield ["Init", h, False]
+            yield rng.choice([["Ids", rng.randrange(nsess)], ["Init", h, False], ["Sp", h]])
     for _ in range(desc["len"]):
         r = rng.random()
         nh = len(W.handles)
         by_sp = sorted(W.args)
         if r < 0.2 or nh == 0:
-            yield ["OpenSp", rng.randrange(nsess), rng.choice(sps)]
+            yield ["OpenSpT" if desc.get("tuples") and rng.random() < 0.8 else "OpenSp", rng.randrange(nsess), rng.choice(sps)]
+            if desc.get("tuples") and rng.random() < 0.5:
+                # the caller goes on using the containers it put into the sequence, before the job is first used
+                h = len(W.handles) - 1
+                yield ["MutateArg", h, rng.choice(KEYS), typed(rng.choice(ATOMS)), True]
+                yield rng.choice([["Init", h, False], ["Sp", h], ["Cached", h]])
         elif r < 0.3 and by_sp:
             h = rng.choice(by_sp)
             yield ["MutateArg", h, rng.choice(KEYS), typed(rng.choice(ATOMS)), rng.random() < 0.5]
